@@ -1,5 +1,7 @@
 #!/usr/bin/env python3
 """usage: tools/make_brief.py seed|refactor <name> <PROP> [note...]
+       tools/make_brief.py seedon <name> <PROP> <neutral patch>   (a seeded defect made in refactored code:
+       the worktree starts with one of the stored behaviour-preserving refactorings applied, uncommitted)
 Creates the scratch worktree /tmp/wt/<name> (detached at /repo HEAD), the output directory
 /tmp/wt-out/<name> and the brief /tmp/wt-out/brief_<name>.txt for a fresh sub-agent.  The brief
 contains the text of the property and environment facts only - nothing about the checks."""
@@ -9,7 +11,12 @@ import subprocess
 import sys
 
 kind, name, prop = sys.argv[1:4]
-note = ' '.join(sys.argv[4:])
+base_patch = ''
+if kind == 'seedon':
+    base_patch = os.path.abspath(sys.argv[4])
+    note = ' '.join(sys.argv[5:])
+else:
+    note = ' '.join(sys.argv[4:])
 P = {}
 for line in open('/verif/properties.jsonl'):
     d = json.loads(line)
@@ -64,7 +71,58 @@ ENV = f'''Environment facts you need:
     changed code from your worktree, not a copy.
   * Test fixtures (small MP4 files) are under {wt}/tests/fixtures.
 '''
-if kind == 'seed':
+if kind == 'seedon':
+    import shutil
+    subprocess.check_call(['git', '-C', wt, 'checkout', '-q', '--', '.'])
+    subprocess.check_call(['git', '-C', wt, 'apply', base_patch])
+    shutil.copy(base_patch, f'{out}/base.diff')
+    body = f'''{HEAD}
+Your job: produce ONE realistic code change ("seeded defect") to dash-live that BREAKS the property
+given below, while the code still compiles/imports and the existing test suite still passes, plus a
+small demonstration program that FAILS with your change applied and PASSES without it.
+
+Starting point: your worktree {wt} already contains an UNCOMMITTED, behaviour-preserving refactoring made by
+a colleague (see `git -C {wt} diff`; a copy is in {out}/base.diff). Treat the refactored code as the current
+state of the project. Your defect is the kind of slip that happens while (or just after) such a refactoring:
+make it INSIDE OR RIGHT NEXT TO THE CODE THE REFACTORING TOUCHED (a helper it introduced, a condition it
+rewrote, a value it now passes around), so that the refactoring plus your slip reads as one plausible commit.
+
+Work ONLY inside your own git worktree: {wt}   (do not touch /repo or /verif, do not read anything under /verif).
+Put your deliverables in {out}:
+  - patch.diff     : output of `git -C {wt} diff` AFTER your change, i.e. the refactoring AND your slip together,
+                     relative to the committed tree (do not include the demo in it)
+  - slip.diff      : your change alone (e.g. `git apply -R`/interdiff is not needed: save `git diff` to a temp file
+                     before and after and produce it with `diff -u`, or simply describe the exact lines in the README
+                     and save the changed hunk(s) here)
+  - demo.py        : the demonstration (a standalone script run as
+                     `cd {wt} && PYTHONPATH={wt} /venv/bin/python {out}/demo.py`; exit code 0 = property holds, non-zero = broken).
+                     It must exit 0 on the committed tree, exit 0 with only base.diff applied, and non-zero with patch.diff applied.
+  - README.md      : which clause of the property the change breaks, what it needs in order to manifest
+                     (the particular input / sequence / option combination / interleaving), and the exact
+                     commands you ran with their observed results (demo on the committed tree, demo with base.diff,
+                     demo with patch.diff, test suite with patch.diff).
+
+What kind of change is wanted:
+  * A subtle, plausible slip - NOT a change that ordinary use or the existing tests would expose at once.
+  * It should need something specific to manifest: an unusual input, a particular option combination,
+    a multi-step sequence, a boundary value, or two cooperating sites that each look fine alone.
+  * It must change the behaviour the property describes (observable through the system's API), not just
+    comments, logging or dead code. Keep it small (a few lines, at most a couple of sites).
+  * Do not weaken or delete tests. Do not add new dependencies.
+
+{ENV}
+To switch states use `git -C {wt} checkout -- .` (committed tree), `git -C {wt} apply {out}/base.diff` (refactoring only)
+and `git -C {wt} apply {out}/patch.diff` (refactoring + slip, on the committed tree). Do NOT commit and do NOT use `git stash`
+(it is shared between worktrees).
+When you are done, reply with a short summary: the file(s) and function(s) you changed, the clause broken,
+and whether you verified all four runs (demo committed tree = pass, demo base only = pass, demo patched = fail,
+test suite patched = 87 pass). Leave your worktree with patch.diff APPLIED.
+
+THE PROPERTY
+============
+{prop_text()}
+'''
+elif kind == 'seed':
     body = f'''{HEAD}
 Your job: produce ONE realistic code change ("seeded defect") to dash-live that BREAKS the property
 given below, while the code still compiles/imports and the existing test suite still passes, plus a
